@@ -29,7 +29,8 @@ class CsvReader(Filter[Iterable[str], Iterable[MutableSequence]]):
 
     def filter(self, items: Iterable[str]) -> Iterable[Dense]:
 
-        lines = iter(csv.reader(iter(filter(None,(i.strip() for i in items))), **self._dialect))
+        #only the line terminator is removed (a leading or trailing delimiter such as a tab belongs to the row), blank lines are skipped
+        lines = iter(csv.reader(iter(i.strip('\r\n') for i in items if i.strip()), **self._dialect))
         first = next(lines)
 
         if self._has_header:
